@@ -1,5 +1,5 @@
 \* template: the driver generates the CONSTANTS line per batch (NI, Counts, Outs, Scatter of the documents)
-CONSTANTS NI = 2  Counts = {0, 1, 2, 3}  Outs = {"o1", "o2"}  Scatter = TRUE  Eager = FALSE
+CONSTANTS NI = 2  Counts = {0, 1, 2, 3}  Outs = {"o1", "o2"}  Scatter = TRUE  IdxSet = {0, 1}  Eager = FALSE
 INIT TInit
 NEXT TNext
 INVARIANT TAccept
@@ -8,4 +8,5 @@ INVARIANT I2
 INVARIANT I3
 INVARIANT TermLast
 INVARIANT CounterOK
+INVARIANT ChkOK
 CONSTRAINT TDiag
